@@ -41,7 +41,7 @@ func (g *Gen) smt(o *Obl) string {
 	}
 	if need["|strlen|"] {
 		// every string has a length between 0 and the address-space bound (DESIGN 8.3)
-		constFacts = append(constFacts, fmt.Sprintf("(forall ((s!l Int)) (! (and (<= 0 (|strlen| s!l)) (<= (|strlen| s!l) %s)) :pattern ((|strlen| s!l))))", maxLen))
+		constFacts = append(constFacts, fmt.Sprintf("(forall ((s!l Int)) (! (and (<= 0 (|strlen| s!l)) (<= (|strlen| s!l) %s) (= (= (|strlen| s!l) 0) (= s!l 0))) :pattern ((|strlen| s!l))))", maxLen))
 	}
 	if need["|declen|"] {
 		// the decimal representation of a 64-bit integer has between 1 and 20 characters
